@@ -205,9 +205,15 @@ func (vt *Model) cud(ps int) {
 	if ps == 0 {
 		ps = 1
 	}
+	// The cursor stops at the bottom margin, or at the last line if it is
+	// already below the margin
+	clamp := row(vt.height() - 1)
+	if vt.cursor.row <= vt.margin.bottom {
+		clamp = vt.margin.bottom
+	}
 	vt.cursor.row += row(ps)
-	if vt.cursor.row > vt.margin.bottom {
-		vt.cursor.row = vt.margin.bottom
+	if vt.cursor.row > clamp {
+		vt.cursor.row = clamp
 	}
 }
 
